@@ -463,6 +463,33 @@ var c20EndToEnd = func(r *mon.Run) {
 		n := len(ref0.Nodes)
 		r.Seen("e2e_fields", f.Key)
 		r.Seen("e2e_list_lengths", fmt.Sprintf("%s=%d", f.Key, n))
+		// "every element exactly once": a list of identified nodes never shows the same node twice
+		{
+			seen := map[string]bool{}
+			for _, id := range ref0.Nodes {
+				if seen[id] && id != "" {
+					r.Violation("e2e-listing:"+f.Key+":element-listed-twice", fmt.Sprintf("the unpaginated %s lists %s twice (%d entries)", f.Key, truncateStr(id, 12), n), map[string]any{"field": f.Key, "bug": f.BugId})
+					break
+				}
+				seen[id] = true
+			}
+		}
+		// the operations of a bug against the stored bug (read from git, not through the served cache)
+		if f.Field == "operations" && f.BugId != "" {
+			if fresh, err := world.ReadBug(r0.Repo, entity.Id(f.BugId)); err == nil {
+				var want []string
+				for _, op := range fresh.Operations() {
+					switch op.(type) {
+					case *bug.CreateOperation, *bug.SetTitleOperation, *bug.AddCommentOperation, *bug.EditCommentOperation, *bug.SetStatusOperation, *bug.LabelChangeOperation:
+						want = append(want, op.Id().String())
+					}
+				}
+				r.Count("e2e_operation_lists_compared_with_git", 1)
+				if !sameStrings(ref0.Nodes, want) {
+					r.Violation("e2e-listing:"+f.Key+":differs-from-stored-operations", fmt.Sprintf("the unpaginated %s returns %v, the stored bug holds the renderable operations %v", f.Key, shortIds(ref0.Nodes), shortIds(want)), map[string]any{"field": f.Key, "bug": f.BugId})
+				}
+			}
+		}
 		if !sameStrings(ref0.Nodes, ref0.EdgeNodes) || ref0.Total != n {
 			r.Violation("e2e-page:"+f.Key+":unpaginated", fmt.Sprintf("unpaginated request: %d nodes, %d edges, totalCount %d", n, len(ref0.EdgeNodes), ref0.Total), map[string]any{"field": f.Key})
 		}
@@ -511,6 +538,10 @@ var c20EndToEnd = func(r *mon.Run) {
 			listings++
 			if msg != "" {
 				continue
+			}
+			if d := firstDupString(p.Nodes); d != "" {
+				r.Violation("e2e-listing:"+f.Key+":element-listed-twice", fmt.Sprintf("a repeated unpaginated request for %s lists %s twice (%d entries, the first request listed %d)", f.Key, truncateStr(d, 12), len(p.Nodes), n), map[string]any{"field": f.Key, "bug": f.BugId})
+				break
 			}
 			if !sameStrings(p.Nodes, ref0.Nodes) {
 				fieldUnstable = true
@@ -599,6 +630,61 @@ var c20EndToEnd = func(r *mon.Run) {
 		}
 		r.Count("e2e_unpaginated_listings", listings)
 	}
+	// One request that asks for the same list several times under aliases (what a client showing the head and the tail of a
+	// list does): every alias must answer as the same arguments do in a request of their own.
+	for _, st := range stable {
+		f := st.f
+		if f.BugId == "" {
+			continue
+		}
+		n := len(st.ref)
+		argSets := []string{"", "first: 2", "last: 2", fmt.Sprintf("first: %d", n), "last: 1"}
+		var parts []string
+		for k, args := range argSets {
+			a := args
+			if a != "" {
+				a = "(" + a + ")"
+			}
+			parts = append(parts, fmt.Sprintf(`a%d: %s%s { totalCount nodes { %s } edges { node { %s } } }`, k, f.Field, a, f.NodeKey, f.NodeKey))
+		}
+		for round := 0; round < 2; round++ {
+			resp := h.Post(false, fmt.Sprintf(`query { repository { bug(prefix: %q) { %s } } }`, f.BugId, strings.Join(parts, " ")), nil)
+			r.Count("e2e_aliased_requests", 1)
+			if resp.HasErrors() {
+				r.Violation("e2e-aliases:"+f.Key+":request-failed", "a request listing "+f.Key+" under five aliases failed: "+resp.ErrorText(), map[string]any{"field": f.Key})
+				break
+			}
+			bad := ""
+			for k, args := range argSets {
+				con := jget(resp.Data, "repository", "bug", fmt.Sprintf("a%d", k))
+				got := jstrs(jlist(con, "nodes"), f.NodeKey)
+				total, _ := jint(con, "totalCount")
+				want := st.ref
+				switch {
+				case strings.HasPrefix(args, "first: "):
+					k, _ := strconv.Atoi(strings.TrimPrefix(args, "first: "))
+					if k < len(want) {
+						want = want[:k]
+					}
+				case strings.HasPrefix(args, "last: "):
+					k, _ := strconv.Atoi(strings.TrimPrefix(args, "last: "))
+					if k < len(want) {
+						want = want[len(want)-k:]
+					}
+				}
+				if !sameStrings(got, want) || total != n {
+					bad = fmt.Sprintf("alias a%d (%s) of round %d: nodes %v totalCount %d, the same arguments alone give %v of %d", k, args, round, shortIds(got), total, shortIds(want), n)
+					break
+				}
+			}
+			if bad != "" {
+				r.Violation("e2e-aliases:"+f.Key, f.Key+": "+bad, map[string]any{"field": f.Key, "bug": f.BugId})
+				break
+			}
+		}
+		r.Case("e2e/aliases/"+f.Key, true)
+	}
+
 	// Several clients page through the lists at the same time (the web UI sends sibling requests concurrently, and
 	// one server answers many users): every walk must still reproduce the list, whatever the others are doing.
 	{
@@ -661,6 +747,17 @@ var c20EndToEnd = func(r *mon.Run) {
 		r.Case(fmt.Sprintf("e2e/concurrent-walks/fields=%d", len(stable)), len(stable) > 0)
 	}
 	r.Count("e2e_http_requests", int(h.Requests))
+}
+
+func firstDupString(l []string) string {
+	seen := map[string]bool{}
+	for _, x := range l {
+		if x != "" && seen[x] {
+			return x
+		}
+		seen[x] = true
+	}
+	return ""
 }
 
 func e2eDistinctOrders(observed [][]string) int {
